@@ -465,26 +465,26 @@ Definition step (tb : tiebreak) (cf : config) (nstrat : Z) (sc : script) (s : si
 
 (* observation after each event: the orders of the event's market (what a strategy sees at its NEXT call is the
    state after this step; the harness samples at the beginning of process_market_book, i.e. before the actions) *)
-Definition step_obs (tb : tiebreak) (cf : config) (nstrat : Z) (sc : script) (s : sim) (e : event) : sim * list sorder :=
-  if s_aborted s then (s, []) else
+Definition step_obs (tb : tiebreak) (cf : config) (nstrat : Z) (sc : script) (s : sim) (e : event) : sim * (list sorder * Z) :=
+  if s_aborted s then (s, ([], 0)) else
   let b := ev_book e in
   let now := b_pt b in
   let mid := ev_market e in
   let s1 := match s_queue s with [] => s | _ => check_pending tb cf now mid s end in
-  if s_aborted s1 then (s1, []) else
+  if s_aborted s1 then (s1, ([], 0)) else
   match get_market mid (s_markets s1) with
-  | None => (s1, [])
+  | None => (s1, ([], 0))
   | Some m =>
-    if mstatus_eqb (b_status b) MClosed then (step tb cf nstrat sc s e, mk_orders m)
+    if mstatus_eqb (b_status b) MClosed then (step tb cf nstrat sc s e, (mk_orders m, s_tx s1 + s_tx_failed s1))
     else
       let m0 := {| mk_id := mk_id m; mk_static := mk_static m; mk_book := mk_book m; mk_closed := false; mk_seen := mk_seen m;
                    mk_analytics := mk_analytics m; mk_orders := mk_orders m; mk_active := mk_active m |} in
       let '(s2, m1) := middleware tb cf s1 m0 b in
       let m2 := if mk_active m1 then set_orders m1 (completion_sweep cf now (mk_orders m1)) else m1 in
-      (step tb cf nstrat sc s e, mk_orders m2)
+      (step tb cf nstrat sc s e, (mk_orders m2, s_tx s1 + s_tx_failed s1))
   end.
 
-Fixpoint run_obs (tb : tiebreak) (cf : config) (nstrat : Z) (sc : script) (s : sim) (es : list event) : list (list sorder) * sim :=
+Fixpoint run_obs (tb : tiebreak) (cf : config) (nstrat : Z) (sc : script) (s : sim) (es : list event) : list (list sorder * Z) * sim :=
   match es with
   | [] => ([], s)
   | e :: r => let '(s1, ob) := step_obs tb cf nstrat sc s e in
